@@ -15,6 +15,7 @@
 package table
 
 import (
+	"bytes"
 	"time"
 
 	"github.com/B1NARY-GR0UP/originium/pkg/bufferpool"
@@ -133,5 +134,6 @@ func Build(entries []types.Entry, dataBlockSize, level int) (Index, []byte) {
 		panic(err)
 	}
 
-	return indexBlock, buf.Bytes()
+	// copy: the pooled buffer is reused as soon as this function returns
+	return indexBlock, bytes.Clone(buf.Bytes())
 }
